@@ -192,6 +192,14 @@ Theorem C15_clip_valid : forall b a d e,
 Proof. exact clip_row_valid. Qed.
 Print Assumptions C15_clip_valid.
 
+(* generate_events: day d contributes its clipped draws with the arrival shifted by 24*d hours *)
+Theorem C15_stoch_day_shift : forall b d raw rest,
+  day_rows b d (raw :: rest) =
+  (map (fun r => let '(a, du, e) := clip_row b r in (a + 24 * inject_Z d, du, e)) raw
+   ++ day_rows b (d + 1) rest)%list.
+Proof. exact day_rows_cons. Qed.
+Print Assumptions C15_stoch_day_shift.
+
 (* the hypotheses are satisfiable: two documents 5-minute periods, one capped by max_len and
    force_feasible, default battery *)
 Example C15_sessions_example :
